@@ -205,35 +205,86 @@ namespace K
 
 /-! ### attenuation over ℝ -/
 
+/-- `relative_distance` over ℝ: the clamped distance's place in `[min, max]` when `min < max`, a step at
+    `min` otherwise -/
+theorem relativeDistance_real (minD maxD d : ℝ) :
+    relativeDistance minD maxD d
+      = if minD < maxD then (clamp d minD maxD - minD) / (maxD - minD) else if d < minD then 0 else 1 := by
+  unfold relativeDistance
+  simp only [r32_real, lit_0, lit_1]
+
 /-- the decibel value the attenuation stage interpolates to -/
 noncomputable def attDb (e : Easing ℝ) (minD maxD d : ℝ) : ℝ :=
-  -60 + 60 * e.apply (1 - (clamp d minD maxD - minD) / (maxD - minD))
+  -60 + 60 * e.apply (1 - relativeDistance minD maxD d)
 
-theorem attenuation_real (e : Easing ℝ) (minD maxD d : ℝ) (h : minD ≤ maxD) :
-    attenuation e minD maxD d = .ok (asAmplitude (attDb e minD maxD d)) := by
-  unfold attenuation relativeDistance attDb lerp32 silenceDb
-  simp only [h, if_true, r32_real, lit_0, lit_1, lit_60]
-  congr 2; ring
+theorem attenuation_real (e : Easing ℝ) (minD maxD d : ℝ) :
+    attenuation e minD maxD d = asAmplitude (attDb e minD maxD d) := by
+  unfold attenuation attDb lerp32 silenceDb
+  simp only [r32_real, lit_0, lit_1, lit_60]
+  congr 1; ring
 
-theorem attenuation_fault (e : Easing ℝ) (minD maxD d : ℝ) (h : maxD < minD) :
-    attenuation e minD maxD d = .error .clampMinGtMax := by
-  unfold attenuation relativeDistance
-  simp [not_le.mpr h]
+/-- the relative distance lies in [0, 1], for every pair of distances -/
+theorem relativeDistance_mem (minD maxD d : ℝ) :
+    0 ≤ relativeDistance minD maxD d ∧ relativeDistance minD maxD d ≤ 1 := by
+  rw [relativeDistance_real]
+  split
+  · next h =>
+    have hd : 0 < maxD - minD := by linarith
+    obtain ⟨c1, c2⟩ := clamp_mem d minD maxD h.le
+    exact ⟨div_nonneg (by linarith) hd.le, by rw [div_le_one hd]; linarith⟩
+  · split <;> norm_num
 
-/-- the eased argument `1 − relative_distance` lies in [0, 1] and is antitone in the distance -/
-theorem relArg_mem (minD maxD d : ℝ) (h : minD < maxD) :
-    0 ≤ 1 - (clamp d minD maxD - minD) / (maxD - minD) ∧ 1 - (clamp d minD maxD - minD) / (maxD - minD) ≤ 1 := by
-  have hd : 0 < maxD - minD := by linarith
-  obtain ⟨c1, c2⟩ := clamp_mem d minD maxD h.le
-  constructor
-  · rw [sub_nonneg, div_le_one hd]; linarith
-  · have : 0 ≤ (clamp d minD maxD - minD) / (maxD - minD) := div_nonneg (by linarith) hd.le
-    linarith
+/-- the eased argument `1 − relative_distance` lies in [0, 1] -/
+theorem relArg_mem (minD maxD d : ℝ) :
+    0 ≤ 1 - relativeDistance minD maxD d ∧ 1 - relativeDistance minD maxD d ≤ 1 := by
+  obtain ⟨h0, h1⟩ := relativeDistance_mem minD maxD d
+  constructor <;> linarith
 
 theorem clamp_mono (minD maxD d1 d2 : ℝ) (h : minD ≤ maxD) (h12 : d1 ≤ d2) :
     clamp d1 minD maxD ≤ clamp d2 minD maxD := by
   rw [clamp_real _ _ _ h, clamp_real _ _ _ h]
   exact max_le_max le_rfl (min_le_min h12 le_rfl)
+
+/-- the relative distance is non-decreasing in the distance, for every pair of distances -/
+theorem relativeDistance_mono (minD maxD d1 d2 : ℝ) (h12 : d1 ≤ d2) :
+    relativeDistance minD maxD d1 ≤ relativeDistance minD maxD d2 := by
+  rw [relativeDistance_real, relativeDistance_real]
+  split
+  · next h =>
+    have hd : 0 < maxD - minD := by linarith
+    have hc := clamp_mono minD maxD d1 d2 h.le h12
+    exact div_le_div_of_nonneg_right (by linarith) hd.le
+  · by_cases h1 : d1 < minD
+    · by_cases h2 : d2 < minD <;> simp only [h1, h2, if_true, if_false] <;> norm_num
+    · have h2 : ¬ d2 < minD := fun h => h1 (lt_of_le_of_lt h12 h)
+      simp only [h1, h2, if_false]; norm_num
+
+/-- below the minimum the relative distance is 0 (any pair of distances); at the minimum too when
+    `min < max` -/
+theorem relativeDistance_below (minD maxD d : ℝ) (h : d < minD ∨ (minD < maxD ∧ d ≤ minD)) :
+    relativeDistance minD maxD d = 0 := by
+  rw [relativeDistance_real]
+  split
+  · next hmm =>
+    have hdm : d ≤ minD := by rcases h with h | h; exact h.le; exact h.2
+    have hc : clamp d minD maxD = minD := by
+      rw [clamp_real _ _ _ hmm.le, min_eq_left (by linarith), max_eq_left hdm]
+    rw [hc, sub_self, zero_div]
+  · next hmm =>
+    rcases h with h | h
+    · simp [h]
+    · exact absurd h.1 hmm
+
+/-- at or beyond both the minimum and the maximum the relative distance is 1 -/
+theorem relativeDistance_beyond (minD maxD d : ℝ) (h1 : minD ≤ d) (h2 : maxD ≤ d) :
+    relativeDistance minD maxD d = 1 := by
+  rw [relativeDistance_real]
+  split
+  · next hmm =>
+    have hc : clamp d minD maxD = maxD := by
+      rw [clamp_real _ _ _ hmm.le, min_eq_right h2, max_eq_right hmm.le]
+    rw [hc, div_self]; linarith
+  · simp [not_lt.mpr h1]
 
 /-! ### ear gains over ℝ -/
 
@@ -376,6 +427,43 @@ theorem Quat.lerp_normSq (a e : Quat ℝ) (t : ℝ) (ha : Quat.normSq a ≠ 0) (
       = Quat.normSq mixed / (Real.sqrt (Quat.normSq mixed) * Real.sqrt (Quat.normSq mixed)) := by
     unfold Quat.normSq; field_simp
   rw [this, hss, div_self (ne_of_gt hpos)]
+
+end K
+
+namespace K
+
+/-! ### `rotation_or_identity`: what reaches the interpolation is never the zero quaternion -/
+
+theorem minPositive32_pos : (0 : ℝ) < (minPositive32 : ℝ) := by
+  unfold minPositive32; norm_num
+
+theorem Quat.normSq_identity : Quat.normSq (Quat.identity : Quat ℝ) = 1 := by
+  simp [Quat.normSq, Quat.identity]
+
+/-- over ℝ: a quaternion of squared length at least 2⁻¹²⁶ is kept, any other is the identity -/
+theorem Quat.rotationOrIdentity_real (q : Quat ℝ) :
+    Quat.rotationOrIdentity q = if (minPositive32 : ℝ) ≤ Quat.normSq q then q else Quat.identity := by
+  unfold Quat.rotationOrIdentity isNormal32 Quat.lengthSquared
+  simp only [isFinite_real, Bool.true_and, abs_real, Quat.dot4_self, abs_of_nonneg (Quat.normSq_nonneg q),
+    decide_eq_true_eq]
+
+/-- the zero quaternion counts as the identity -/
+theorem Quat.rotationOrIdentity_zero : Quat.rotationOrIdentity (⟨0, 0, 0, 0⟩ : Quat ℝ) = Quat.identity := by
+  rw [Quat.rotationOrIdentity_real]
+  have : Quat.normSq (⟨0, 0, 0, 0⟩ : Quat ℝ) = 0 := by simp [Quat.normSq]
+  rw [this, if_neg (not_le.mpr minPositive32_pos)]
+
+/-- a unit quaternion (any quaternion of squared length ≥ 2⁻¹²⁶) is left alone -/
+theorem Quat.rotationOrIdentity_unit (q : Quat ℝ) (h : Quat.normSq q = 1) : Quat.rotationOrIdentity q = q := by
+  rw [Quat.rotationOrIdentity_real, h, if_pos]
+  unfold minPositive32; norm_num
+
+/-- whatever the caller supplied, the result has non-zero length -/
+theorem Quat.rotationOrIdentity_ne_zero (q : Quat ℝ) : Quat.normSq (Quat.rotationOrIdentity q) ≠ 0 := by
+  rw [Quat.rotationOrIdentity_real]
+  split
+  · next h => exact ne_of_gt (lt_of_lt_of_le minPositive32_pos h)
+  · rw [Quat.normSq_identity]; norm_num
 
 end K
 
